@@ -376,7 +376,8 @@ func main() {
 	r := mc.Start("C14")
 	r.Rule("per function the complete product of its argument domains is enumerated inside a generated program (mixed-radix tuple index, first argument fastest); results are folded into a rolling hash per block; the same source runs on Go (stdlib = oracle) and through the Wa pipeline (ports in waroot/src); differing blocks are re-run verbosely and compared tuple by tuple; distinct = distinct block hashes")
 	r.Assume("argument tuples on which Go's function panics are outside the domain (guards in the generated program skip them on both sides)")
-	r.Assume("errors: strconv errors are compared by class (nil / ErrSyntax / ErrRange / other) and base64/base32/hex errors by text; float results by IEEE bits, every NaN is one value")
+	r.Assume("errors: strconv errors are compared by class (nil / ErrSyntax / ErrRange / other), base64/base32/hex errors by nil-ness (hex also ErrLength) in the enumerations and by text on a handful of inputs (the *.Error functions); float results by IEEE bits, every NaN is one value")
+	r.Assume("the oracle is the host toolchain's standard library (go1.23.5): results that depend on the Unicode version or on later bug fixes of Go count as differences")
 	r.Assume("functions whose parameter or result is the platform-sized uint (32-bit in Wa, 64-bit in Go) are not compared (math/bits.Len, LeadingZeros, ... without a size suffix)")
 	r.Assume("sort.Sort results are compared only where the sorted order is unique (total orders without distinguishable equal elements); sort.Stable everywhere; container/heap by the values returned, not by the layout of the backing slice")
 	fns := allFns(r.Thorough())
@@ -523,9 +524,8 @@ func main() {
 							why = "short-output"
 						}
 						bad = append(bad, badBlock{f: c.F, lo: lo, hi: hi, why: why, detail: w.Err})
-						// the rest of the case is re-run by the refinement of this block (it
-						// continues after the trapping tuple) and by a new case for the later blocks
-						// the later blocks of the chunk get a case each, so that every block has its own
+						// the rest of this block is covered by the refinement (single-tuple cases behind the
+						// stopping tuple); the later blocks of the chunk get a case each, so that every block has its own
 						// verdict in the next round even if the function traps all over the place
 						for a := hi; a < c.Hi; a += c.Bl {
 							next = append(next, caseSpec{F: c.F, Lo: a, Hi: min(c.Hi, a+c.Bl), Bl: c.Bl})
